@@ -251,6 +251,9 @@ pub struct Env {
     pub sent_down: Vec<Vec<u8>>,
     /// number of delivered frames the property statements are silent about (oracles stand down)
     pub unspecified_seen: u64,
+    /// full-stack configuration: (kind, detail, message) of every disagreement between what the MAC handed to the
+    /// radio and what the real driver programmed into the chip, and of chip-model alerts
+    pub stack_alerts: Vec<(&'static str, String, String)>,
     /// size of the device's own radio buffer (frames longer than it are outside every statement)
     pub device_buf_cap: usize,
     /// the device was restored from a structurally mutated document (only panic-freedom is judged)
@@ -297,6 +300,7 @@ impl Env {
             pending_join: None,
             sent_down: Vec::new(),
             unspecified_seen: 0,
+            stack_alerts: Vec::new(),
             device_buf_cap: 256,
             mutated_session: false,
             delivered: Vec::new(),
@@ -622,64 +626,105 @@ impl Env {
 
     // ----- async radio -----
 
-    fn a_tx(&mut self, config: aradio::TxConfig, buf: &[u8]) -> Result<u32, SimRadioError> {
+    // Every radio call is split in two: `*_begin` takes the scripted decision for this call position (fault?)
+    // and `*_end` records the event with the outcome the radio produced. The stub radio (`SimRadio`) calls both
+    // back to back; the full-stack radio (`stack::StackRadio`) runs the real lora-phy call in between.
+
+    pub fn a_tx_begin(&mut self, _config: &aradio::TxConfig, buf: &[u8]) -> (u16, bool) {
         let (pos, hit) = self.next_pos("fault.tx");
-        let rf = Rf::from_cfg(&config.rf);
         self.note_uplink(buf);
-        let ret_ms = self.txn.tx_ms;
-        self.push(Ev::Tx { pw: config.pw, rf, bytes: buf.to_vec(), ok: !hit, ret_ms, pos });
         self.phase = Phase::Gap1;
         self.cur_rx = None;
+        (pos, hit)
+    }
+
+    pub fn a_tx_end(&mut self, config: &aradio::TxConfig, buf: &[u8], pos: u16, ok: bool, ret_ms: u32) {
+        let rf = Rf::from_cfg(&config.rf);
+        self.push(Ev::Tx { pw: config.pw, rf, bytes: buf.to_vec(), ok, ret_ms, pos });
+        if ok {
+            // time on air passes
+            self.now_ms += 50;
+        }
+    }
+
+    fn a_tx(&mut self, config: aradio::TxConfig, buf: &[u8]) -> Result<u32, SimRadioError> {
+        let (pos, hit) = self.a_tx_begin(&config, buf);
+        let ret_ms = self.txn.tx_ms;
+        self.a_tx_end(&config, buf, pos, !hit, ret_ms);
         if hit {
             return Err(SimRadioError::Injected);
         }
-        // time on air passes
-        self.now_ms += 50;
         Ok(ret_ms)
     }
 
-    fn a_setup_rx(&mut self, config: aradio::RxConfig) -> Result<(), SimRadioError> {
-        let (pos, hit) = self.next_pos("fault.setup_rx");
+    pub fn a_setup_rx_begin(&mut self) -> (u16, bool) {
+        self.next_pos("fault.setup_rx")
+    }
+
+    pub fn a_setup_rx_end(&mut self, config: &aradio::RxConfig, pos: u16, ok: bool) {
         let rf = Rf::from_cfg(&config.rf);
         let single_ms = match config.mode {
             aradio::RxMode::Single { ms } => Some(ms),
             aradio::RxMode::Continuous => None,
         };
-        self.push(Ev::SetupRx { rf, single_ms, ok: !hit, pos });
+        self.push(Ev::SetupRx { rf, single_ms, ok, pos });
+        if ok {
+            self.cur_rx = Some(rf);
+            self.cur_rx_continuous = single_ms.is_none();
+        }
+    }
+
+    fn a_setup_rx(&mut self, config: aradio::RxConfig) -> Result<(), SimRadioError> {
+        let (pos, hit) = self.a_setup_rx_begin();
+        self.a_setup_rx_end(&config, pos, !hit);
         if hit {
             return Err(SimRadioError::Injected);
         }
-        self.cur_rx = Some(rf);
-        self.cur_rx_continuous = single_ms.is_none();
         Ok(())
     }
 
-    fn a_rx_single(&mut self, buf: &mut [u8]) -> Result<aradio::RxStatus, SimRadioError> {
+    pub fn a_rx_single_begin(&mut self) -> (u16, bool, Win) {
         let (pos, hit) = self.next_pos("fault.rx_single");
         let win = match self.phase {
             Phase::Gap1 | Phase::Rx1 => Win::Rx1,
             _ => Win::Rx2,
         };
         self.phase = if win == Win::Rx1 { Phase::Gap2 } else { Phase::Done };
+        (pos, hit, win)
+    }
+
+    /// What the ether does in this single-shot window: `Some(n)` = a frame of n bytes (written to `buf`, judged
+    /// by the reference), `None` = silence.
+    pub fn a_rx_single_decide(&mut self, win: Win, buf: &mut [u8]) -> Option<usize> {
+        let spec = self.next_frame(win)?;
+        Some(self.deliver(&spec, win, buf))
+    }
+
+    pub fn a_rx_single_end(&mut self, pos: u16, outcome: String) {
+        self.push(Ev::RxSingle { outcome, pos });
+    }
+
+    fn a_rx_single(&mut self, buf: &mut [u8]) -> Result<aradio::RxStatus, SimRadioError> {
+        let (pos, hit, win) = self.a_rx_single_begin();
         if hit {
-            self.push(Ev::RxSingle { outcome: "Err".into(), pos });
+            self.a_rx_single_end(pos, "Err".into());
             return Err(SimRadioError::Injected);
         }
-        match self.next_frame(win) {
-            Some(spec) => {
-                let n = self.deliver(&spec, win, buf);
-                self.push(Ev::RxSingle { outcome: format!("Rx({n})"), pos });
+        match self.a_rx_single_decide(win, buf) {
+            Some(n) => {
+                self.a_rx_single_end(pos, format!("Rx({n})"));
                 Ok(aradio::RxStatus::Rx(n, aradio::RxQuality::new(-80, 5)))
             }
             None => {
-                self.push(Ev::RxSingle { outcome: "RxTimeout".into(), pos });
+                self.a_rx_single_end(pos, "RxTimeout".into());
                 Ok(aradio::RxStatus::RxTimeout)
             }
         }
     }
 
-    /// `Some(result)` when something is heard (or a fault fires), `None` when the listener stays pending.
-    fn a_rx_continuous(&mut self, buf: &mut [u8]) -> Option<Result<(usize, aradio::RxQuality), SimRadioError>> {
+    /// What the ether has for a continuous listener right now: `None` = nothing (the listener stays pending),
+    /// `Some((pos, Err))` = the scripted fault hits this call, `Some((pos, Ok(n)))` = a frame of n bytes in `buf`.
+    pub fn a_rx_continuous_decide(&mut self, buf: &mut [u8]) -> Option<(u16, Result<usize, ()>)> {
         let win = match self.phase {
             Phase::Gap1 => Win::Gap1,
             Phase::Gap2 => Win::Gap2,
@@ -705,18 +750,42 @@ impl Env {
         }
         let (pos, hit) = self.next_pos("fault.rx_continuous");
         if hit {
-            self.push(Ev::RxCont { outcome: "Err".into(), pos });
-            return Some(Err(SimRadioError::Injected));
+            return Some((pos, Err(())));
         }
         let spec = self.next_frame(win).unwrap();
         let n = self.deliver(&spec, win, buf);
-        self.push(Ev::RxCont { outcome: format!("Rx({n})"), pos });
-        Some(Ok((n, aradio::RxQuality::new(-80, 5))))
+        Some((pos, Ok(n)))
+    }
+
+    pub fn a_rx_continuous_end(&mut self, pos: u16, outcome: String) {
+        self.push(Ev::RxCont { outcome, pos });
+    }
+
+    /// `Some(result)` when something is heard (or a fault fires), `None` when the listener stays pending.
+    fn a_rx_continuous(&mut self, buf: &mut [u8]) -> Option<Result<(usize, aradio::RxQuality), SimRadioError>> {
+        match self.a_rx_continuous_decide(buf)? {
+            (pos, Err(())) => {
+                self.a_rx_continuous_end(pos, "Err".into());
+                Some(Err(SimRadioError::Injected))
+            }
+            (pos, Ok(n)) => {
+                self.a_rx_continuous_end(pos, format!("Rx({n})"));
+                Some(Ok((n, aradio::RxQuality::new(-80, 5))))
+            }
+        }
+    }
+
+    pub fn a_low_power_begin(&mut self) -> (u16, bool) {
+        self.next_pos("fault.low_power")
+    }
+
+    pub fn a_low_power_end(&mut self, pos: u16, ok: bool) {
+        self.push(Ev::LowPower { ok, pos });
     }
 
     fn a_low_power(&mut self) -> Result<(), SimRadioError> {
-        let (pos, hit) = self.next_pos("fault.low_power");
-        self.push(Ev::LowPower { ok: !hit, pos });
+        let (pos, hit) = self.a_low_power_begin();
+        self.a_low_power_end(pos, !hit);
         if hit {
             return Err(SimRadioError::Injected);
         }
